@@ -74,6 +74,30 @@ func main() {
 			go func(g int) {
 				defer wg.Done()
 				ok := true
+				if g >= 12 {
+					// distinct objects: a full lifecycle per goroutine (parse, interpolate, marshal, sign, verify)
+					q, err := pipeline.Parse(strings.NewReader(doc))
+					if err != nil {
+						ok = false
+					} else {
+						ok = q.Interpolate(nil, false) == nil
+						b, err1 := json.Marshal(q)
+						y, err2 := yaml.Marshal(q)
+						ok = ok && err1 == nil && err2 == nil && len(b) > 0 && len(y) > 0
+						ok = ok && signature.SignSteps(ctx, q.Steps, key, "repo", signature.WithEnv(q.Env.ToMap())) == nil
+						qc := q.Steps[0].(*pipeline.CommandStep)
+						qenv := q.Env.ToMap()
+						qenv["STEP"] = "s"
+						ok = ok && signature.Verify(ctx, qc.Signature, pub, &signature.CommandStepWithInvariants{CommandStep: *qc, RepositoryURL: "repo"}, signature.WithEnv(qenv)) == nil
+						ok = ok && qc.InterpolateMatrixPermutation(pipeline.MatrixPermutation{"os": "linux"}) == nil
+					}
+					if !ok {
+						mu.Lock()
+						bad++
+						mu.Unlock()
+					}
+					return
+				}
 				switch g % 4 {
 				case 0:
 					v, has := m.Get("c")
